@@ -24,7 +24,7 @@ STATE_MEASURE = "distinct (detector, encoding kind or junk kind, state) tuples"
 WHITE_BOX = ["private running statistics (twin comparison only)"]
 ERR = ["DDM", "EDDM", "STEPD", "ADWINAccuracy"]
 UNUSED_Y = ["ADWIN", "PageHinkley", "CUSUM", "KdqTreeStreaming", "PCACD", "KdqTreeBatch", "HDDDM", "CDBD", "NNDVI"]
-ENC = ["int", "str", "bool", "float", "multi", "np", "list", "arr"]
+ENC = ["int", "str", "bool", "float", "multi", "np", "list", "arr", "closefloat", "numstr"]
 CELL = ["int", "bool", "np", "list", "arr", "npbool", "boollist", "boolarr"]
 N_JUNK = 6
 
@@ -52,6 +52,16 @@ def _enc_pair(rng, agree):
     elif kind == "float":
         a = round(rng.random() * 10, 2)
         b = a if agree else a + 0.5
+    elif kind == "closefloat":
+        # distinct class codes that are close in relative terms (category codes stored in a float column, tiny magnitudes)
+        a, step = rng.choice([(310112.0, 1.0), (1e9, 1.0), (1e-9, 1e-9), (123456.0, 1.0), (1e15, 1.0)])
+        b = a if agree else a + step
+    elif kind == "numstr":
+        # a number against its own printed form is a DISAGREEMENT (3 != "3"); agreeing pairs are plain equal values
+        a = rng.choice([3, 1, 0, 1.0, 0.5, True])
+        b = a if agree else str(a)
+        if rng.random() < 0.5:
+            a, b = b, a
     elif kind == "multi":
         a = rng.randint(0, 6)
         b = a if agree else (a + rng.randint(1, 5)) % 7
